@@ -821,6 +821,9 @@ class Stmts:
                     else:
                         items.append(v)
                 return [(VTuple(tuple(items), is_list), s)]
+            if len(node.elts) == 1 and isinstance(node.elts[0], ast.Starred):
+                # (*xs,) / [*xs] is tuple(xs) / list(xs)
+                return self.container_ctor('list' if is_list else 'tuple', [vs[0]], s, None)
             th = self.th
             b = VListB(th.dflt_seq, z3.IntVal(0))
             results = [(b, s)]
